@@ -97,6 +97,17 @@ Fixpoint cc_eqb (a b : list cchar) : bool :=
 
 Definition sx_cc (c : chunk) : sx := sx_chunk c.
 
+(* a text used as an iterable: like a str, it gives its characters one by one, each a text of one
+   character in its own colour *)
+Definition cc_chunk (x : cchar) : chunk := Chunk (fst (snd x)) [fst x] (snd (snd x)).
+Definition cc_text (x : cchar) : chtext := CHText 1 [cc_chunk x].
+Definition s_iter_parts (vs : list nat) (h : list (list cchar)) (it : iterable) : list part :=
+  match it with
+  | ItText v => map (fun x => PCons (PC (cc_chunk x)) PNil) (sget h (var_id vs v))
+  | ItChunk c => map PC (chunk_items c)
+  | ItStr s => map (fun ch => PS [ch]) s
+  end.
+
 (* what a statement does on plain lists.  Format results are not produced here
    (they are related to the plain str by the format theorems). *)
 Definition sexec_stmt (st : sstate) (s : stmt) : sstate * sx :=
@@ -134,6 +145,19 @@ Definition sexec_stmt (st : sstate) (s : stmt) : sstate * sx :=
   | OChunkSlice c lo hi => (st, sx_res sx_chunk (Ok (clone c (py_slice (c_text c) lo hi))))
   | OChunkEq c p => (st, SL [])
   | OChunkFormat c spec => (st, SL [])
+  | SJoinIt a it => s_finish st (Ok (s_join_new vs h (obj a) (s_iter_parts vs h it)))
+  | SChunkJoinIt c it => s_finish st (Ok (s_join_new vs h (ccs c) (s_iter_parts vs h it)))
+  | OIter a => (st, sx_res (sx_list sx_text) (Ok (map cc_text (obj a))))
+  | ORevIter a => (st, sx_res (sx_list sx_text) (Ok (map cc_text (rev (obj a)))))
+  | OIn a p =>
+      let eqp x := match p with
+                   | PS s => cc_eqb [x] (plain_cc s)
+                   | PC c => cc_eqb [x] (ccs c)
+                   | PV v => cc_eqb [x] (obj v)
+                   | _ => false
+                   end in
+      (st, sx_res sx_bool (Ok (existsb eqp (obj a))))
+  | OChunkIter c rv => (st, sx_list sx_chunk (if rv then rev (chunk_items c) else chunk_items c))
   end.
 
 Fixpoint sexec (st : sstate) (prog : list stmt) : sstate * list sx :=
@@ -159,6 +183,8 @@ Fixpoint part_ok (sfx : list Z -> list Z) (p : part) : Prop :=
   | PCons x r => part_ok sfx x /\ part_ok sfx r
   | _ => True
   end.
+Definition iter_ok (sfx : list Z -> list Z) (it : iterable) : Prop :=
+  match it with ItChunk c => wfc sfx c | _ => True end.
 Definition nonempty_l (cs : list chunk) : Prop := Forall (fun c => c_text c <> []) cs.
 Definition stmt_ok (sfx : list Z -> list Z) (s : stmt) : Prop :=
   match s with
@@ -170,4 +196,8 @@ Definition stmt_ok (sfx : list Z -> list Z) (s : stmt) : Prop :=
   | SChunkJoin c items => wfc sfx c /\ Forall (part_ok sfx) items
   | SChunkFixed c _ | OChunkIndex c _ | OChunkSlice c _ _ | OChunkFormat c _ => wfc sfx c
   | SIndex _ _ | SSlice _ _ _ | SFixed _ _ | OFormat _ _ => True
+  | SJoinIt _ it => iter_ok sfx it
+  | SChunkJoinIt c it => wfc sfx c /\ iter_ok sfx it
+  | OIter _ | ORevIter _ | OChunkIter _ _ => True
+  | OIn _ p => part_ok sfx p
   end.
